@@ -112,7 +112,8 @@ fn multiset(rows: &Rows, cols: &[usize]) -> Vec<String> {
     v
 }
 
-pub fn check(q: &DpQuery, w: &DpWorld, params: &DpParameters, with_sd: bool, r: &mut Rng, rep: &mut Report) {
+pub fn check(q: &DpQuery, w: &DpWorld, params: &DpParameters, sd_tables: Option<&[String]>, r: &mut Rng, rep: &mut Report) {
+    let with_sd = sd_tables.is_some();
     let sql = &q.sql;
     let relations = w.cat.relations();
     let rel = match compile(sql, &relations) {
@@ -122,7 +123,7 @@ pub fn check(q: &DpQuery, w: &DpWorld, params: &DpParameters, with_sd: bool, r: 
             return;
         }
     };
-    let sd = if with_sd { Some(synthetic_data(w)) } else { None };
+    let sd = sd_tables.map(|t| synthetic_data_for(w, t));
     let c = match dp_compile(&rel, &relations, sd, w.privacy_unit(), params.clone()) {
         Outcome::Ok(c) => c,
         Outcome::Err(_) => {
@@ -227,7 +228,7 @@ pub fn check(q: &DpQuery, w: &DpWorld, params: &DpParameters, with_sd: bool, r: 
                     variant,
                     leak.as_ref().map(|l| format!("; {}", l)).unwrap_or_default()
                 ),
-                json!({"catalog": w.cat.to_json(30), "other_catalog": w2.cat.to_json(30), "query": sql, "dp_parameters": format!("{:?}", params), "synthetic_data": with_sd,
+                json!({"catalog": w.cat.to_json(30), "other_catalog": w2.cat.to_json(30), "query": sql, "dp_parameters": format!("{:?}", params), "synthetic_data": with_sd, "synthetic_data_declared_for": sd_tables,
                        "rendered": rendered, "result_on_D": base.1.to_json(30), "result_on_other": result2.to_json(30),
                        "channels": {"noise_nodes": s2.keys().collect::<Vec<_>>(), "threshold_nodes": s1.iter().collect::<Vec<_>>()}, "first_unpinned_stage": first_diff}),
             );
@@ -252,8 +253,26 @@ pub fn run_cases(p: &Params, i: u64, rep: &mut Report) {
         nullable: true,
     };
     let w = gen_dp_world(&mut r, &opts);
-    let q = gen_dp_query(&mut r, &w);
-    let params = DpParameters::new(*r.pick(&[1.0, 50.0, 400.0]), *r.pick(&[1e-5, 1e-3, 0.05]), 0.5, *r.pick(&[1.0, 5.0, 100.0]), 1.0, *r.pick(&[1u64, 3, 5]));
-    let with_sd = r.chance(1, 3);
-    check(&q, &w, &params, with_sd, &mut r, rep);
+    // aggregations most of the time; plain projections / joins / set operations too (with synthetic
+    // data the DP entry point answers those from the synthetic tables)
+    let q = if r.chance(1, 4) { gen_pup_query(&mut r, &w) } else { gen_dp_query(&mut r, &w) };
+    let params = if r.chance(1, 8) {
+        // degenerate budgets: the compiler must refuse (or fail), never fall back to an exact answer
+        match r.below(4) {
+            0 => DpParameters::new(1.0, 0.0, 0.5, 5.0, 1.0, 3),
+            1 => DpParameters::new(0.0, 1e-3, 0.5, 5.0, 1.0, 3),
+            2 => DpParameters::new(1.0, 1e-3, 1.0, 5.0, 1.0, 3),
+            _ => DpParameters::new(1.0, 1e-3, 0.0, 5.0, 1.0, 3),
+        }
+    } else {
+        DpParameters::new(*r.pick(&[1.0, 50.0, 400.0]), *r.pick(&[1e-5, 1e-3, 0.05]), 0.5, *r.pick(&[1.0, 5.0, 100.0]), 1.0, *r.pick(&[1u64, 3, 5]))
+    };
+    // synthetic data: none, declared for every table, or for some of them only
+    let all: Vec<String> = w.cat.tables.iter().map(|t| t.name.clone()).collect();
+    let sd_tables: Option<Vec<String>> = match r.below(6) {
+        0 | 1 => Some(all),
+        2 => Some(all.into_iter().filter(|_| r.bool()).collect()),
+        _ => None,
+    };
+    check(&q, &w, &params, sd_tables.as_deref(), &mut r, rep);
 }
